@@ -31,7 +31,7 @@ def probe(sh, w, program, sr, ctx):
     tok = w.save()
     try:
         had = w.model.current_record() is not None
-        c1 = w.clean()
+        c1 = w.clean(build_name=None) if rng.random() < 0.3 else w.clean()
         sh.evaluations += 1
         sh.count('clean_probes')
         if not sr.committed:
